@@ -25,7 +25,7 @@ from harness.vloop import InlineExecutor, VLoop
 
 logging.disable(logging.CRITICAL)
 
-from taskiq import Context, TaskiqDepends  # noqa: E402
+from taskiq import Context, ScheduleSource, TaskiqDepends  # noqa: E402
 from taskiq.abc.broker import AsyncBroker  # noqa: E402
 from taskiq.abc.middleware import TaskiqMiddleware  # noqa: E402
 from taskiq.abc.result_backend import AsyncResultBackend  # noqa: E402
@@ -121,6 +121,17 @@ def tid_code(tid: str) -> int:
     if tid.startswith("c"):
         return int(tid[1:])
     return -1
+
+
+class _ListSource(ScheduleSource):
+    def __init__(self) -> None:
+        self.items: List[Any] = []
+
+    async def get_schedules(self) -> List[Any]:
+        return self.items
+
+    async def add_schedule(self, schedule: Any) -> None:
+        self.items.append(schedule)
 
 
 class BrokerDownError(BrokerError):
@@ -316,8 +327,7 @@ def run(scn: Dict[str, Any]) -> List[Dict[str, Any]]:
             from taskiq.brokers.shared_broker import AsyncSharedBroker
             shared = AsyncSharedBroker()
             shared.default_broker(b1)
-            task = shared.register_task(t, task_name="t", **decl)
-            b1.local_task_registry["t"] = task
+            task = shared.register_task(t, task_name="t", **decl)       # lives in the global registry only: every broker's worker finds it there
         else:
             task = b1.register_task(t, task_name="t", **decl)
         # label typing, retries and hooks must not depend on argument parsing or on exception propagation into dependencies
@@ -383,6 +393,26 @@ def run(scn: Dict[str, Any]) -> List[Dict[str, Any]]:
                     continue
                 env.rec("kiq", k=op[1], ok=False, s="noser")
                 loop.run_coro(do_kiq(kickers[op[1]], bad=True))
+            elif name == "skiq":
+                if op[1] not in kickers:
+                    env.rec("noop")
+                    snap()
+                    continue
+                # the kicker creates a schedule (kept by a list-backed source) and the schedule object is kicked by hand:
+                # a send with exactly the labels / id / broker of that kicker
+                created = loop.run_coro(kickers[op[1]].schedule_by_time(_ListSource(), _dt.datetime(2040, 1, 1), 5, y="z", when=WHEN_TEXT))
+                env.rec("kiq", k=op[1], ok=True)
+                env.kick_fail = False
+
+                async def _skiq() -> None:
+                    try:
+                        await created.kiq()
+                        env.rec("kiqret", s="ok")
+                    except SendTaskError:
+                        env.rec("kiqret", s="SendTaskError")
+                    except Exception as exc:  # noqa: BLE001
+                        env.rec("kiqret", s="other:" + type(exc).__name__)
+                loop.run_coro(_skiq())
             elif name == "tkiq":
                 env.rec("kiq", k=0, ok=not op[1])
                 env.kick_fail = bool(op[1])
@@ -435,6 +465,7 @@ def run(scn: Dict[str, Any]) -> List[Dict[str, Any]]:
             snap()
         return env.events
     finally:
+        AsyncBroker.global_task_registry.pop("t", None)
         try:
             loop.shutdown()
         except Exception:  # noqa: BLE001
